@@ -61,6 +61,11 @@ def random_spec(seed):
     mf = rng.choice([[1, 10], [3, 20], [1, 5], [1, 4], [1, 3]])
     if rng.random() < 0.12:
         # boundary: the most frequent value holds exactly min_freq of the rows, every other value less
+        if rng.random() < 0.4:
+            # thresholds and sample sizes for which min_freq * n, computed in floating point, exceeds the exact count
+            # (0.07 * 100 = 7.000000000000001): "frequency >= min_freq" is about the frequency, not about a rounded product
+            a, b, n = rng.choice([(7, 25, 25), (7, 25, 50), (7, 50, 50), (7, 100, 100), (7, 50, 100)])
+            mf = [a, b]
         k = max(2, (n * mf[0]) // mf[1])
         n = k * mf[1] // mf[0] if (k * mf[1]) % mf[0] == 0 else n
         if n * mf[0] % mf[1] == 0:
